@@ -198,9 +198,14 @@ pub fn schedule_jobs_level(level: u8, tf: &dyn Fn(Scenario) -> Scenario) -> Vec<
         add("S4 w{8,64} both drivers", vec![s1(8), s2(8, 4), s1(64), s2(64, 4)], 1);
         add("S5 sparse + dense, both drivers w2", vec![s5("parblock", 2), s5("parfile", 2)], if deep { 2 } else { 1 });
         add("S6 special files among directories and files, both drivers w{2,3}", vec![s6("parblock", 2), s6("parfile", 2), s6("parfile", 3)], if deep { 2 } else { 1 });
-        add("tiny both drivers", vec![tiny("parblock"), tiny("parfile")], if deep { 3 } else { 2 });
+        add("tiny both drivers", vec![tiny("parblock"), tiny("parfile")], 2);
     }
     drop(add);
+    if deep {
+        // three deviations on the smallest scenario with a block race, around the P0 base schedule only (about 2 million executions)
+        let s = Arc::new(tf(tiny("parblock")));
+        parts.push(("tiny parblock d<=3 around P0".to_string(), vec![(s, RunSpec::base(crate::sup::Policy::P0), 3usize)]));
+    }
     parts.extend(extra_parts);
     parts
 }
